@@ -115,6 +115,21 @@ def cases_for(tier, rng):
                         bd = [T('[')] + [z for v in order for z in (V(v), T(','))] + [T(']')]
                         cases.append(dict(prog=[In(N('seq'), bd, mapping=mapping)],
                                           src=sources(kw={'seq': lst('S', items)}), K=0, fk=[], svn=svn_table(attrs=('x', 'y'))))
+    # attributes named like the fixed sequence variables (item, key, index, length): sequence-var-item is the element's attribute
+    # `item`, first-key / last-key follow the runs of the attribute `key` -- also for pairs, mappings, with a prefix
+    for a1, a2 in (('item', 'key'), ('index', 'length'), ('start', 'number')):
+        for n in (2, 3):
+            for xs in itertools.product(('x1', 'x2'), repeat=n):
+                for mk, mapping in ((obj, False), (mp, True)):
+                    items = [mk('E%d' % i, **{a1: plain(xv), a2: plain('y%d' % (i // 2))}) for i, xv in enumerate(xs)]
+                    pitems = [pair(plain('key%d' % i, o=i), it) for i, it in enumerate(items)]
+                    order = ('sequence-var-' + a1, 'first-' + a1, 'last-' + a1, 'sequence-var-' + a2, 'first-' + a2, 'sequence-index')
+                    bd = [T('[')] + [z for v in order for z in (V(v), T(','))] + [T(']')]
+                    for its, pre in ((items, False), (items, True), (pitems, False)):
+                        if its is pitems and mapping:
+                            continue
+                        cases.append(dict(prog=[In(N('seq'), bd, mapping=mapping, pre=pre)],
+                                          src=sources(kw={'seq': lst('S', its)}), K=0, fk=[], svn=svn_table(attrs=(a1, a2))))
     # batched: the body is rendered for the displayed window only; index / number / letter / roman / even / odd keep counting
     # in the whole sequence, sequence-start / -end mark the first / last displayed element
     for kind in ('obj', 'str', 'pair'):
